@@ -170,6 +170,7 @@ func parsePacketAdaptationField(i *astikit.BytesIterator) (a *PacketAdaptationFi
 
 	// Length
 	a.Length = int(b)
+	a.IsOneByteStuffing = a.Length == 0
 
 	afStartOffset := i.Offset()
 
